@@ -23,7 +23,7 @@ RULE = ('cases = (function form, nrows, set of failing rows, set of failing fiel
         'failing-field subsets x 3 policies x {argument, config default} x errorvalue in {None, "ERR"} x 9 function forms. '
         'Non-trivial: at least one failing and one non-failing row. Distinct = SHA-1 of the case.')
 ASSUMPTIONS = ['the private exception type identifies the converter failure', 'config default is read when the view is constructed (anchor mechanism)']
-EXC_NAMES_ = sorted(['InjectedFault'] + [b.__name__ for b in (KeyError, IndexError, ValueError, TypeError, AttributeError, ZeroDivisionError, RuntimeError, AssertionError, LookupError, ArithmeticError, UnicodeError, OSError, NotImplementedError, Exception)])
+EXC_NAMES_ = sorted(['InjectedFault'] + [b.__name__ for b in (KeyError, IndexError, ValueError, TypeError, AttributeError, ZeroDivisionError, RuntimeError, AssertionError, LookupError, ArithmeticError, UnicodeError, OSError, NotImplementedError, Exception)] + ['StopIteration'])
 FORMS = ['convert-callable', 'convert-multi', 'convert-method', 'convert-passrow', 'convert-where', 'convertall', 'fieldmap', 'rowmap', 'rowmapmany']
 REQUIRED = (['form:' + f for f in FORMS] + ['policy:False', 'policy:True', 'policy:inline', 'via:config', 'via:arg',
             'fail-first-row', 'fail-last-row', 'fail-consecutive', 'fail-all-rows', 'exception-surfaced-at-failing-row',
@@ -40,7 +40,12 @@ def _sub(base):
     return type('Injected' + base.__name__, (base,), {})
 
 
+# StopIteration is special: raised (or re-raised) inside a generator it reaches the caller as RuntimeError (PEP 479).
+# The policy must still hold: errorvalue / the exception object under False / 'inline', and under True *an* exception
+# that surfaces exactly when the failing row is requested.  So for this family the type of what surfaces may also be
+# RuntimeError, nothing else is relaxed.
 EXC_TYPES = {'InjectedFault': InjectedFault}
+EXC_TYPES['StopIteration'] = type('InjectedStopIteration', (StopIteration,), {})
 for _b in (KeyError, IndexError, ValueError, TypeError, AttributeError, ZeroDivisionError, RuntimeError, AssertionError,
            LookupError, ArithmeticError, UnicodeError, OSError, NotImplementedError, Exception):
     EXC_TYPES[_b.__name__] = _sub(_b)
@@ -266,11 +271,15 @@ def judge(case, ctx):
     if tuple(h) != hdr:
         out.append({'kind': 'header-differs', 'expected': hdr, 'observed': tuple(h)})
 
+    stopiter = case.get('exc') == 'StopIteration'
+    # a user generator (rowmapmany) that raises StopIteration is itself turned into RuntimeError before petl sees it
+    ok_types = (exc_type, RuntimeError) if stopiter else (exc_type,)
+
     def cell_ok(g, e):
         if isinstance(e, tuple) and len(e) == 2 and e[0] is EXC:
-            if not isinstance(g, exc_type):
+            if not isinstance(g, ok_types):
                 return False
-            if exc_type is Fault and g.args != (e[1],):
+            if exc_type is Fault and isinstance(g, Fault) and g.args != (e[1],):
                 return False
             ctx.seen('inline-exception-delivered')
             return True
@@ -309,7 +318,7 @@ def judge(case, ctx):
             if not rows_ok(got, exp_rows[:exp_raise_after]) or len(got) != exp_raise_after:
                 out.append({'kind': 'exception-surfaced-at-wrong-row', 'expected-delivered-before': show(exp_rows[:exp_raise_after]),
                             'observed-delivered-before': got, 'exception': repr(raised)})
-            if not isinstance(raised, exc_type) or (exc_type is Fault and raised.args != (exp_raise_key,)):
+            if not isinstance(raised, ok_types) or (exc_type is Fault and isinstance(raised, Fault) and raised.args != (exp_raise_key,)):
                 out.append({'kind': 'wrong-exception-raised', 'expected': repr(exp_raise_key), 'observed': repr(raised)})
             if not out:
                 ctx.seen('exception-surfaced-at-failing-row')
